@@ -123,11 +123,23 @@ Proof.
   rewrite !(file_after_fresh fl _ new H). split; reflexivity.
 Qed.
 
-(* BuildIndex does not (finding C01-F3): what a longer earlier out.tar held behind the new archive stays *)
-Lemma index_file_keeps_tail :
-  exists fl, In fl c01_index_file_open /\ exists old new : list nat, file_after fl old new <> new.
+(* BuildIndex, since fix 8ccf1a0 (was finding C01-F3), opens the output tarball truncating as well *)
+Lemma index_file_opens_fresh : forallb opens_fresh c01_index_file_open = true.
+Proof. reflexivity. Qed.
+
+Theorem index_file_generated : forall fl, In fl c01_index_file_open ->
+  forall (A : Type) (old old' new : list A), file_after fl old new = new /\ file_after fl old new = file_after fl old' new.
 Proof.
-  exists ["O_CREATE"; "O_RDWR"]. split; [vm_compute; auto|]. exists [1; 2; 3], [9]. vm_compute. discriminate.
+  intros fl Hin A old old' new. pose proof index_file_opens_fresh as H. rewrite forallb_forall in H. specialize (H fl Hin).
+  rewrite !(file_after_fresh fl _ new H). split; reflexivity.
+Qed.
+
+(* hypothetical, the flags BEFORE the fix (os.O_CREATE|os.O_RDWR): what a longer earlier out.tar held behind the new archive stays *)
+Definition index_file_open_before_8ccf1a0 : list (list string) := [["O_CREATE"; "O_RDWR"]].
+Lemma index_file_kept_tail_before_fix :
+  exists fl, In fl index_file_open_before_8ccf1a0 /\ exists old new : list nat, file_after fl old new <> new.
+Proof.
+  exists ["O_CREATE"; "O_RDWR"]. split; [left; reflexivity|]. exists [1; 2; 3], [9]. vm_compute. discriminate.
 Qed.
 
 (* the process-wide caches of the resolver hand out copies (read by C08's generator) *)
